@@ -467,6 +467,10 @@ class Gen:
             st["durInt"] = True
         if r.random() < 0.3:
             st["durUnit"] = r.choice([1, 1000, 1000000000])
+        if not self.binary_safe and not st.get("durInt") and r.random() < 0.06:
+            # an unset unit (a configuration value that was never filled in): every float duration is +Inf, -Inf or NaN, which
+            # the JSON build writes as strings - still one well-formed object (integer durations would divide by zero: not used)
+            st["durUnit"] = 0
         if r.random() < 0.3:
             st["floatPrec"] = r.choice([0, 3, 12])
         if r.random() < 0.2:
